@@ -12,7 +12,7 @@ SCOPE = {
     'C01': ['server::streaming::partitions', 'server::streaming::segments', 'server::streaming::batching', 'server::streaming::topics::messages', 'server::streaming::systems::messages', 'server::channels::commands::maintain_messages'],
     'C02': ['server::streaming::partitions', 'server::streaming::segments', 'server::streaming::batching', 'server::streaming::cache', 'server::streaming::polling_consumer', 'server::streaming::systems::messages', 'server::streaming::topics::messages'],
     'C03': ['server::streaming::partitions', 'server::streaming::segments', 'server::streaming::topics::storage', 'server::streaming::streams::storage', 'server::streaming::systems::system', 'server::compat'],
-    'C04': ['server::streaming::partitions', 'server::streaming::segments', 'server::streaming::persistence', 'server::compat'],
+    'C04': ['server::streaming::partitions', 'server::streaming::segments', 'server::streaming::persistence', 'server::compat', 'server::streaming::topics::storage', 'server::streaming::streams::storage', 'server::streaming::systems::system'],
     'C05': ['server::state', 'server::binary::handlers', 'server::http', 'server::streaming::systems', 'server::streaming::streams', 'server::streaming::topics'],
     'C06': ['server::streaming::systems', 'server::streaming::streams', 'server::streaming::topics', 'server::state::system'],
     'C07': ['server::streaming::partitions::consumer_offsets', 'server::streaming::systems::consumer_offsets', 'server::streaming::topics::consumer_offsets', 'server::streaming::partitions::storage', 'server::streaming::polling_consumer', 'server::streaming::topics::consumer_groups', 'server::streaming::partitions::persistence', 'server::streaming::topics::consumer_group'],
